@@ -103,7 +103,7 @@ func (dc *TraditionalDnsConn) exchange(ctx context.Context, q []byte) (*[]byte, 
 	if respChan == nil {
 		return nil, ErrTDCTooManyQueries
 	}
-	defer dc.deleteQueueC(assignedQid)
+	defer dc.deleteQueueC(assignedQid, respChan)
 
 	// Reminder: Set write deadline here is not very useful to avoid dead connections.
 	// Typically, a write operation will time out only if its socket buffer is full.
@@ -202,16 +202,11 @@ func (dc *TraditionalDnsConn) readLoop() {
 		}
 
 		rid := binary.BigEndian.Uint16(*r)
-		resChan := dc.getQueueC(rid)
-
-		// Other queries may still be waiting for their replies. Keep waiting
-		// for them with the shorter waiting-reply deadline, otherwise a query that
-		// is never answered will only fail after the idle timeout.
-		waiting := dc.queueLen()
-		if resChan != nil {
-			waiting--
-		}
-		dc.waitingResp.Store(waiting > 0)
+		// The reply claims its query. What is left in the queue are the queries
+		// that are still waiting for their replies. takeQueueC keeps waiting for
+		// them with the shorter waiting-reply deadline (waitingResp), otherwise a
+		// query that is never answered will only fail after the idle timeout.
+		resChan := dc.takeQueueC(rid)
 
 		if resChan != nil {
 			select {
@@ -251,16 +246,20 @@ func (dc *TraditionalDnsConn) CloseWithErr(err error) {
 	})
 }
 
-func (dc *TraditionalDnsConn) getQueueC(qid uint16) chan<- *[]byte {
-	dc.queueMu.RLock()
-	defer dc.queueMu.RUnlock()
-	return dc.queue[uint32(qid)]
-}
-
-func (dc *TraditionalDnsConn) queueLen() int {
-	dc.queueMu.RLock()
-	defer dc.queueMu.RUnlock()
-	return len(dc.queue) + dc.reservedQuery
+// takeQueueC removes the query that qid was assigned to from the queue and returns
+// its channel (nil if there is no such query). It also updates waitingResp: whether
+// other queries are still waiting for a reply.
+func (dc *TraditionalDnsConn) takeQueueC(qid uint16) chan<- *[]byte {
+	dc.queueMu.Lock()
+	defer dc.queueMu.Unlock()
+	c, ok := dc.queue[uint32(qid)]
+	if ok {
+		delete(dc.queue, uint32(qid))
+	}
+	// Note: Update the flag in the same critical section. A query that is added
+	// after this will see the flag was cleared and arm the deadline by itself.
+	dc.waitingResp.Store(len(dc.queue) > 0)
+	return c
 }
 
 // addQueueC assigns a qid and add it to the queue.
@@ -285,9 +284,13 @@ func (dc *TraditionalDnsConn) addQueueC() (qid uint16, c chan *[]byte) {
 	return 0, nil
 }
 
-func (dc *TraditionalDnsConn) deleteQueueC(qid uint16) {
+// deleteQueueC removes c from the queue if it is still there. (The qid may have been
+// taken by its reply and then assigned to another query.)
+func (dc *TraditionalDnsConn) deleteQueueC(qid uint16, c chan *[]byte) {
 	dc.queueMu.Lock()
-	delete(dc.queue, uint32(qid))
+	if dc.queue[uint32(qid)] == c {
+		delete(dc.queue, uint32(qid))
+	}
 	dc.queueMu.Unlock()
 }
 
